@@ -9,7 +9,15 @@ answering shards; ColdWhenOld; AllUpIsComplete) and the transcription of the fet
 (FetchIsGreedy / FetchDesign), and (b) emits every scenario with its set Allowed of outcomes.  The Go
 driver `proxyread` replays each case into the real search.Ingestor over scripted StoreApiClient fakes and,
 for a subsample, through the proxy's real gRPC API (proxyapi.NewIngestor, Search/ComplexSearch) with the
-fakes served as real gRPC StoreApi servers; the observed outcome must be a member of Allowed."""
+fakes served as real gRPC StoreApi servers; the observed outcome must be a member of Allowed.
+
+config.ShuffleReplicas is a dimension of the scenario (families shuf, conc, rand): Allowed is then also the
+union over the orders a shard's replicas may be tried in.  Part 4 of the module (Family "shard") is searchShard
+at statement granularity run by several searches at once over the one configured replica list (TLC:
+ReplicaSetConstant, ShardEachOnce, ShardHonest, ShardSummary; the variant that shuffles the shared list in
+place must be rejected).  It is bound to the code by the driver's -conc stage: all scenarios of one
+configuration are concurrent searches of ONE search.Ingestor; every outcome must be in its scenario's Allowed,
+no search may ask a host twice, and afterwards the configured replica lists must be the lists of the case."""
 import hashlib
 import json
 import os
@@ -19,7 +27,10 @@ import vlib
 
 LEVEL = "model_checking"
 
-INVS = "Honest, ColdWhenOld, AllUpIsComplete, FetchIsGreedy, RetentionHonest"
+INVS = ("Honest, OnlyWhoAnswers, ColdWhenOld, AllUpIsComplete, FetchIsGreedy, RetentionHonest; one shard under concurrent "
+        "searches: ReplicaSetConstant, ShardEachOnce, ShardHonest, ShardSummary")
+# the in-place shuffle of the shared replica list (InPlace = TRUE) must be rejected by TLC
+SHARD_MUT = {"ProxyRead_shard_inplace_set.cfg": "ReplicaSetConstant", "ProxyRead_shard_inplace_out.cfg": "ShardSummary"}
 
 
 def _scan(path, stats, samples, distinct):
@@ -41,6 +52,8 @@ def _scan(path, stats, samples, distinct):
             for k in set(c["fbk"].values()):
                 stats["fetch:" + k] += 1
             stats["shape:%dx%d+%d" % (len(c["hot"]), len(c["hot"][0]), len(c["cold"]))] += 1
+            if c.get("shuffle"):
+                stats["shuffle_replicas"] += 1
             if i % 4099 == 11 and len(samples) < 4:
                 samples.append(c)
 
@@ -53,16 +66,22 @@ def run(ctx):
         fams = [("search", "ProxyRead_search.cfg", None), ("search8", "ProxyRead_search8.cfg", None),
                 ("merge", "ProxyRead_merge.cfg", None), ("fetch", "ProxyRead_fetch.cfg", None),
                 ("fetch3", "ProxyRead_fetch3.cfg", None), ("store", "ProxyRead_store.cfg", None),
+                ("shuf", "ProxyRead_shuf.cfg", None), ("conc", "ProxyRead_conc.cfg", None),
                 ("rand", "ProxyRead_rand.cfg", ("num=150", 21))]
         asis = "ProxyRead_asis.cfg"
-        api_every = {"search": 7, "search8": 2, "merge": 5, "fetch": 5, "fetch3": 1, "store": 1, "rand": 1}
+        shard = "ProxyRead_shard.cfg"
+        api_every = {"search": 7, "search8": 2, "merge": 5, "fetch": 5, "fetch3": 1, "store": 1, "rand": 1, "shuf": 5, "conc": 7}
+        conc_args = ["-conc-reps", "3", "-conc-min", "20000"]
     else:
         fams = [("search", "ProxyRead_searchfull.cfg", None), ("search8", "ProxyRead_search8full.cfg", None),
                 ("merge", "ProxyRead_mergefull.cfg", None), ("fetch", "ProxyRead_fetchfull.cfg", None),
                 ("fetch3", "ProxyRead_fetch3full.cfg", None), ("store", "ProxyRead_store.cfg", None),
+                ("shuf", "ProxyRead_shuffull.cfg", None), ("conc", "ProxyRead_concfull.cfg", None),
                 ("rand", "ProxyRead_rand.cfg", ("num=3000", 21))]
         asis = "ProxyRead_asisfull.cfg"
-        api_every = {"search": 5, "search8": 2, "merge": 11, "fetch": 3, "fetch3": 3, "store": 1, "rand": 4}
+        shard = "ProxyRead_shardfull.cfg"
+        api_every = {"search": 5, "search8": 2, "merge": 11, "fetch": 3, "fetch3": 3, "store": 1, "rand": 4, "shuf": 5, "conc": 11}
+        conc_args = ["-conc-reps", "10", "-conc-min", "200000"]
     per = max(2, vlib.NCPU // 4)
 
     def tlc(job):
@@ -78,10 +97,27 @@ def run(ctx):
     def tlc_asis(cfg):
         return vlib.run_tlc(ctx, "ProxyRead.tla", cfg, workers=per, tags=("DEV",), timeout=3400, heap="3g")
 
+    def tlc_shard(cfg):
+        return vlib.run_tlc(ctx, "ProxyRead.tla", cfg, workers=per, tags=("DEV",), timeout=3400, heap="3g",
+                            quiet=cfg in SHARD_MUT)
+
     with ThreadPoolExecutor(max_workers=len(fams) + 1) as ex:
         fa = ex.submit(tlc_asis, asis)
+        fs = [(cfg, ex.submit(tlc_shard, cfg)) for cfg in [shard] + sorted(SHARD_MUT)]
         results = list(ex.map(tlc, fams))
         ra = fa.result()
+        rs = [(cfg, f.result()) for cfg, f in fs]
+    # Part 4: searchShard as pinned keeps the four invariants under every interleaving; the in-place shuffle of
+    # the shared list loses them (a counterexample is demanded: the invariants are not vacuous)
+    for cfg, r in rs:
+        if cfg in SHARD_MUT:
+            if r.violated != SHARD_MUT[cfg]:
+                raise vlib.Infra("%s: the in-place shuffle of the shared replica list is expected to violate %s, got %s"
+                                 % (cfg, SHARD_MUT[cfg], r.violated))
+        else:
+            if r.violated:
+                raise vlib.Infra("TLC: %s violated in ProxyRead.tla (%s)" % (r.violated, cfg))
+            vlib.require_tlc_ok(r, "ProxyRead " + cfg)
     for label, cfg, cf, r in results:
         if r.violated:
             # a counterexample inside the specification (transcription vs reference): the design question
@@ -128,6 +164,22 @@ def run(ctx):
                     "fake-protocol": "a store was asked something the scenario does not foresee",
                     "crash": "driver process died"}.get(m.get("what"), "outcome outside Allowed(scenario)")
             ctx.violation(sig, m, what=what)
+        if label == "conc":
+            # the same scenarios as concurrent searches of one Ingestor per configuration
+            mism, summ, _ = vlib.run_cases(ctx, drv, ["-workers", str(vlib.NCPU), "-conc", "-stats", statsf] + conc_args, cf,
+                                           label="conc-shared", timeout=3000)
+            tot["evals"] += summ["evals"]
+            for m in sorted(mism, key=lambda m: m.get("what") != "replica-set"):
+                sig = "c16:conc-shared:%s" % m.get("sig", m.get("what", "?"))
+                what = {"replica-set": "after concurrent searches the proxy's configured replica lists are no longer the lists it was "
+                                       "started with (a replica lost or listed twice)",
+                        "outcome-kind": "with concurrent searches over one Ingestor: error / partial / complete classification outside "
+                                        "Allowed(scenario) - a shard with an answering replica was given up",
+                        "ids": "with concurrent searches over one Ingestor: returned IDs (or their host) outside Allowed(scenario)",
+                        "fake-protocol": "one search asked the same host twice (or something else the scenario does not foresee)",
+                        "panic": "the read path panicked under concurrent searches",
+                        "crash": "driver process died"}.get(m.get("what"), "outcome outside Allowed(scenario) under concurrent searches")
+                ctx.violation(sig, m, what=what)
         _scan(cf, stats, samples, distinct)
     drv_stats = D()
     if os.path.exists(statsf):
@@ -140,6 +192,11 @@ def run(ctx):
     ctx.cov["racing_alternatives"] = {"allowed": drv_stats["racing_alts"], "observed": drv_stats["racing_alts_seen"],
                                       "note": "members of Allowed over the scenarios with more than one member; each such scenario is "
                                               "replayed 3 times (undisturbed, odd shards slow, even shards slow)"}
+    ctx.cov["concurrent_searches_over_shared_ingestor"] = {
+        "configurations": drv_stats["conc_groups"], "searches": drv_stats["conc_searches"],
+        "note": "family conc: every configuration (topology x ShuffleReplicas) = one search.Ingestor; all its scenarios are replayed "
+                "at the same time from %d goroutines in repeated passes; afterwards the configured replica lists are compared with the "
+                "case's lists" % vlib.NCPU}
     ctx.cov["traces_validated_against_impl"] = tot["cases"]
     ctx.cov["evaluations"] = tot["evals"]
     ctx.cov["distinct_nontrivial"] = len(distinct)
@@ -155,13 +212,18 @@ def run(ctx):
         "merge = 2 (thorough also 3) shards, every pair of result sets of <= 3 IDs over a 4-ID universe (equal MIDs, duplicates "
         "across shards) x all-up / one shard down x size x offset x order; fetch = 1-2 sources with every pair of stream behaviours "
         "(ok, open error, break after k, drop set, empty-payload set, extra block unknown/duplicate/foreign at k, 4 reorderings), "
-        "fetch3 = 3 sources with <= 1 (thorough 2) faulty, with and without fetch hints; rand = seeded -simulate over <= 3x3 hot + <= 2x2 cold, "
-        "random behaviours, data, request. Every case runs through search.Ingestor.Search + full read of the document iterator; a "
+        "fetch3 = 3 sources with <= 1 (thorough 2) faulty, with and without fetch hints; shuf = ShuffleReplicas on: every assignment of "
+        "search behaviours to ALL replicas (any of them may be asked first) of 1x2, 1x3, 2x2, 1x2+1x2 [thorough more]; conc = "
+        "ShuffleReplicas off/on x every assignment of ok / error / wants-old-data to the replicas of 1x3, 2x2, 2x3, 1x2+1x2, replayed one by "
+        "one AND as concurrent searches of one shared Ingestor per configuration; rand = seeded -simulate over <= 3x3 hot + <= 2x2 cold, "
+        "random behaviours, data, request, ShuffleReplicas. Every case runs through search.Ingestor.Search + full read of the document iterator; a "
         "subsample (every k-th) through proxyapi gRPC Search/ComplexSearch. distinct_nontrivial = distinct cases in which at least "
         "one host misbehaves in search or fetch.")
     ctx.assumptions += [
-        "ShuffleReplicas=false (math/rand cannot be seeded); shard-answer races and map-iteration order of fetch sources are covered "
-        "by Allowed being a set, not by forcing schedules: which member the real run takes is up to the Go scheduler",
+        "the order ShuffleReplicas draws (math/rand cannot be seeded), shard-answer races and map-iteration order of fetch sources are covered "
+        "by Allowed being a set, not by forcing schedules: which member the real run takes is up to the Go scheduler / the generator",
+        "concurrent searches run under a failure pattern that is fixed per search (the fakes serve each search its own scenario); hosts "
+        "changing state in the middle of a search are decided on the model only (ShardHonest with ShardFlips)",
         "stores are scripted fakes that serve exactly the tabulated answer/stream; a fake applies the size+offset cut itself",
         "a panic of lessFuncPosBased is accepted as 'fails with an error' (the gRPC layer recovers it) only when two different "
         "sources both send unrequested blocks; everywhere else a panic is a violation",
